@@ -51,6 +51,7 @@ import (
 
 func init() {
 	reg.Register("c20.rounds", "C20", roundsWL)
+	reg.Register("c20.bursts", "C20", burstsWL)
 }
 
 // material is everything a round needs to build cold object sets: key bytes and
@@ -77,6 +78,14 @@ type material struct {
 	envKey                   []byte // its scalar
 	nc                       *ncPKI // the constrained branch of the round PKI
 	sm9Seed                  uint64 // the scripted streams "signmaster"/"encmaster" of this seed generate the master keys
+	// artefacts for the refused calls (refuse.go), made with warm twins: a message and additional data of 128 bytes and
+	// more, SM2 ciphertexts of it and in the other formats, one for the peer's key, a second one for legacy key A,
+	// sealed messages of both sizes for every shared AEAD, two certificates that do not chain
+	msgBig, adBig                                    []byte
+	sm2CtBig, sm2CtASN1, sm2CtC1C2C3, sm2CtPeer      []byte
+	legACt2                                          []byte
+	gcmCtBig, gcm16Ct, gcm16CtBig, nonce16, ccmCtBig []byte
+	strangerDER, forgedDER                           []byte
 }
 
 // objset is one cold set of shared objects.
@@ -102,6 +111,9 @@ type objset struct {
 	inters *smx509.CertPool
 	leaf   *smx509.Certificate
 	leafB  *smx509.Certificate
+	// certificates that do not chain to the pools: the leaf of an issuer the pools do not know, and a leaf that names a
+	// shared intermediate as its issuer but carries the signature of another key
+	stranger, forged *smx509.Certificate
 	// a pool filled with AddCert / AddCertWithConstraint from parsed certificates (no lazy parsing, shared
 	// *Certificate values, a constraint callback that the library may call from many goroutines)
 	rootsParsed *smx509.CertPool
@@ -199,6 +211,17 @@ func buildMaterial(r *mon.Rand) *material {
 	m.gcmCt = w.gcm.Seal(nil, m.gcmNonce, m.msg, m.uid)
 	m.ccmNonce = r.Bytes(w.ccm.NonceSize())
 	m.ccmCt = w.ccm.Seal(nil, m.ccmNonce, m.msg, m.uid)
+	m.msgBig, m.adBig, m.nonce16 = r.Bytes(r.Range(128, 2500)), r.Bytes(r.Range(128, 400)), r.Bytes(16)
+	m.gcmCtBig, m.ccmCtBig = w.gcm.Seal(nil, m.gcmNonce, m.msgBig, m.adBig), w.ccm.Seal(nil, m.ccmNonce, m.msgBig, m.adBig)
+	m.gcm16Ct, m.gcm16CtBig = w.gcm16.Seal(nil, m.nonce16, m.msg, nil), w.gcm16.Seal(nil, m.nonce16, m.msgBig, m.adBig)
+	m.sm2CtBig, err = sm2.Encrypt(script(seed, "ctbig"), w.sm2Pub, m.msgBig, nil)
+	must(err)
+	m.sm2CtASN1, err = sm2.EncryptASN1(script(seed, "ctasn1"), w.sm2Pub, m.msg)
+	must(err)
+	m.sm2CtC1C2C3, err = sm2.Encrypt(script(seed, "ctc1c2c3"), w.sm2Pub, m.msg, sm2.NewPlainEncrypterOpts(sm2.MarshalUncompressed, sm2.C1C2C3))
+	must(err)
+	m.sm2CtPeer, err = sm2.Encrypt(script(seed, "ctpeer"), w.sm2PeerPub, m.msg, nil)
+	must(err)
 	m.legASig, err = sm2.SignASN1(script(seed, "legAsig"), w.legA, m.hash, nil)
 	must(err)
 	m.legBSig, err = sm2.SignASN1(script(seed, "legBsig"), w.legB, m.hash, nil)
@@ -206,6 +229,8 @@ func buildMaterial(r *mon.Rand) *material {
 	m.legACt, err = sm2.Encrypt(script(seed, "legAct"), w.legAPub, m.msg, nil)
 	must(err)
 	m.legBCtASN1, err = sm2.EncryptASN1(script(seed, "legBct"), w.legBPub, m.msg)
+	must(err)
+	m.legACt2, err = sm2.Encrypt(script(seed, "legAct2"), w.legAPub, m.msgBig[:130], nil)
 	must(err)
 	ek, err := sm2.NewPrivateKey(m.envKey)
 	must(err)
@@ -245,6 +270,14 @@ func buildMaterial(r *mon.Rand) *material {
 	interBDER, err := smx509.CreateCertificate(script(seed, "interB"), ibt, rbt, &intBK.PublicKey, rootBK)
 	must(err)
 	m.leafBDER, err = smx509.CreateCertificate(script(seed, "leafB"), lbt, ibt, &leafBK.PublicKey, intBK)
+	must(err)
+	// two certificates that do not chain: a leaf issued by a CA that is in no pool, and a leaf that names the first
+	// intermediate as its issuer (name and key identifier) but is signed with another key
+	strangerK := mk(scalar(r))
+	st, sl, fl := tmpl("c20 stranger root", true, 41), tmpl("c20 stranger leaf", false, 42), tmpl("c20 forged leaf", false, 43)
+	m.strangerDER, err = smx509.CreateCertificate(script(seed, "stranger"), sl, st, &leafK.PublicKey, strangerK)
+	must(err)
+	m.forgedDER, err = smx509.CreateCertificate(script(seed, "forged"), fl, it, &leafK.PublicKey, strangerK)
 	must(err)
 	// a third, technically constrained branch (pki.go): root and intermediate with name constraints of every kind, leaves
 	// with SANs of every kind; its intermediate is also cross-signed by the first root
@@ -340,6 +373,10 @@ func (m *material) cold() *objset {
 		o.leaf, err = smx509.ParseCertificate(m.leafDER)
 		must(err)
 		o.leafB, err = smx509.ParseCertificate(m.leafBDER)
+		must(err)
+		o.stranger, err = smx509.ParseCertificate(m.strangerDER)
+		must(err)
+		o.forged, err = smx509.ParseCertificate(m.forgedDER)
 		must(err)
 		for _, l := range m.nc.leaves {
 			crt, err := smx509.ParseCertificate(l.der)
@@ -488,9 +525,9 @@ func bl(v bool) []byte {
 // development (VERIF_C20_INTERNAL_POINTS=1), never set by a registered command.
 var ops = func() []op {
 	if os.Getenv("VERIF_C20_INTERNAL_POINTS") == "1" {
-		return concatOps(baseOps, deriveOps, agreeOps, legacyOps, modeOps, pkiOps, pointOps)
+		return concatOps(baseOps, deriveOps, agreeOps, legacyOps, modeOps, pkiOps, refuseOps, pointOps)
 	}
-	return concatOps(baseOps, deriveOps, agreeOps, legacyOps, modeOps, pkiOps)
+	return concatOps(baseOps, deriveOps, agreeOps, legacyOps, modeOps, pkiOps, refuseOps)
 }()
 
 func concatOps(parts ...[]op) []op {
